@@ -21,6 +21,7 @@ fn one_dynamic_block(r: &mut Rng, w: &mut BitW, toks: &[Tok], last: bool, maxlen
         empty_blocks: false,
         max_code_len: maxlen,
         no_rle,
+        code_shape: 0,
     };
     w.put(last as u32, 1);
     w.put(2, 2);
